@@ -81,15 +81,17 @@ func (j *Journal) Fields() []Field {
 			default:
 				out = append(out, Field{p + ".description", ""})
 			}
-			if t.Comment != nil {
-				out = append(out, Field{p + ".comment", strings.TrimSpace(t.Comment.Text)})
-			} else {
-				out = append(out, Field{p + ".comment", "none"})
-			}
 			cs := []*Comment{t.Comment}
 			for i := range t.Lines {
 				cs = append(cs, &t.Lines[i])
 			}
+			var texts []string
+			for _, c := range cs {
+				if c != nil {
+					texts = append(texts, strings.TrimSpace(c.Text))
+				}
+			}
+			out = append(out, Field{p + ".comments", strings.Join(texts, " | ")})
 			out = append(out, Field{p + ".tags", tagList(cs...)})
 			out = append(out, Field{p + ".npostings", fmt.Sprint(len(t.Postings))})
 			for k := range t.Postings {
